@@ -22,70 +22,78 @@ Print Assumptions C14_collect_flat_exact.
 (* 2. A directory run: for every quirk vector with all flags off, every tree, target, recursion mode
       and every set of ignore sources of the documented forms, the files that reach the rules are
       exactly (same list, same order) the regular files beneath the target that the specification keeps. *)
-Theorem C14_dir_run_exact : forall q recursive abs rel t S,
+Theorem C14_dir_run_exact : forall q recursive abs sp rel t S,
   flags_off q -> rel_ok rel = true -> target_ok t = true -> tsources_ok S = true ->
-  run_dir q recursive abs rel t (render_sources S) = spec_dir recursive rel t S.
+  run_dir q recursive abs sp rel t (render_sources S) = spec_dir recursive rel t S.
 Proof. exact run_dir_exact. Qed.
 Print Assumptions C14_dir_run_exact.
 
 (* 2b. lint_directory_parallel / --parallel: the same set, recursive or not. *)
-Theorem C14_parallel_dir_run_exact : forall q recursive abs rel t S,
+Theorem C14_parallel_dir_run_exact : forall q recursive abs sp rel t S,
   flags_off q -> rel_ok rel = true -> target_ok t = true -> tsources_ok S = true ->
-  run_dir_par q recursive abs rel t (render_sources S) = spec_dir recursive rel t S.
+  run_dir_par q recursive abs sp rel t (render_sources S) = spec_dir recursive rel t S.
 Proof. exact run_dir_par_exact. Qed.
 Print Assumptions C14_parallel_dir_run_exact.
 
-Theorem C14_parallel_equals_sequential : forall q recursive abs rel t s,
-  run_dir_par q recursive abs rel t s = run_dir q recursive abs rel t s.
+Theorem C14_parallel_equals_sequential : forall q recursive abs sp rel t s,
+  run_dir_par q recursive abs sp rel t s = run_dir q recursive abs sp rel t s.
 Proof. exact run_dir_par_eq. Qed.
 Print Assumptions C14_parallel_equals_sequential.
 
-(* 2c. The vector claimed for the current tree (Actual/CollectActual.v: every flag off since the fixes b20520c, 27377de,
-       bbae54e, 9c8f928; the model then runs the functions generated from the source): no guard left. *)
-Theorem C14_dir_run_exact_current_tree : forall recursive abs rel t S,
-  rel_ok rel = true -> target_ok t = true -> tsources_ok S = true ->
-  run_dir collect_actual recursive abs rel t (render_sources S) = spec_dir recursive rel t S.
+(* 2c. The vector claimed for the current tree (Actual/CollectActual.v: the seven repaired flags off, the model then runs the
+       functions generated from the source; q_ignore_cwd_spelling still on): exact for every target spelled absolutely or
+       relative to the project root (plain_spelling), no other guard. *)
+Theorem C14_dir_run_exact_current_tree : forall recursive abs sp rel t S,
+  plain_spelling sp -> rel_ok rel = true -> target_ok t = true -> tsources_ok S = true ->
+  run_dir collect_actual recursive abs sp rel t (render_sources S) = spec_dir recursive rel t S.
 Proof. exact run_dir_exact_actual. Qed.
 Print Assumptions C14_dir_run_exact_current_tree.
 
-Theorem C14_parallel_dir_run_exact_current_tree : forall recursive abs rel t S,
-  rel_ok rel = true -> target_ok t = true -> tsources_ok S = true ->
-  run_dir_par collect_actual recursive abs rel t (render_sources S) = spec_dir recursive rel t S.
+Theorem C14_parallel_dir_run_exact_current_tree : forall recursive abs sp rel t S,
+  plain_spelling sp -> rel_ok rel = true -> target_ok t = true -> tsources_ok S = true ->
+  run_dir_par collect_actual recursive abs sp rel t (render_sources S) = spec_dir recursive rel t S.
 Proof. exact run_dir_par_exact_actual. Qed.
 Print Assumptions C14_parallel_dir_run_exact_current_tree.
 
-Theorem C14_named_files_exact_current_tree : forall abs S ps,
-  tsources_ok S = true -> forallb path_ok ps = true ->
-  run_files collect_actual abs (render_sources S) ps = spec_files S ps.
+Theorem C14_named_files_exact_current_tree : forall abs sp S ps,
+  plain_spelling sp -> tsources_ok S = true -> forallb path_ok ps = true ->
+  run_files collect_actual abs sp (render_sources S) ps = spec_files S ps.
 Proof. exact run_files_exact_actual. Qed.
 Print Assumptions C14_named_files_exact_current_tree.
 
 (* 3. Files named explicitly go through the same gates. *)
-Theorem C14_named_files_exact : forall q abs S ps,
+Theorem C14_named_files_exact : forall q abs sp S ps,
   flags_off q -> tsources_ok S = true -> forallb path_ok ps = true ->
-  run_files q abs (render_sources S) ps = spec_files S ps.
+  run_files q abs sp (render_sources S) ps = spec_files S ps.
 Proof. exact run_files_exact. Qed.
 Print Assumptions C14_named_files_exact.
 
+(* 3b. Several targets in one run (execute_linting_on_paths): the named files plus everything beneath the named directories. *)
+Theorem C14_mixed_targets_exact : forall q recursive parallel abs sp S files dirs,
+  flags_off q -> tsources_ok S = true -> forallb path_ok files = true -> dirs_ok dirs = true ->
+  run_paths q recursive parallel abs sp (render_sources S) files dirs = spec_paths recursive S files dirs.
+Proof. exact run_paths_exact. Qed.
+Print Assumptions C14_mixed_targets_exact.
+
 (* 4. An excluded or ignored file never reaches the rules, under a directory target or named explicitly;
       every other regular file beneath the target does; --no-recursive considers direct children only. *)
-Theorem C14_excluded_never_linted : forall q recursive abs rel t S ps p,
+Theorem C14_excluded_never_linted : forall q recursive abs sp rel t S ps p,
   flags_off q -> rel_ok rel = true -> target_ok t = true -> tsources_ok S = true -> forallb path_ok ps = true ->
   spec_ok S p = false ->
-  ~ In p (run_dir q recursive abs rel t (render_sources S)) /\ ~ In p (run_files q abs (render_sources S) ps).
+  ~ In p (run_dir q recursive abs sp rel t (render_sources S)) /\ ~ In p (run_files q abs sp (render_sources S) ps).
 Proof. exact excluded_never_linted. Qed.
 Print Assumptions C14_excluded_never_linted.
 
-Theorem C14_others_linted : forall q abs rel t S below,
+Theorem C14_others_linted : forall q abs sp rel t S below,
   flags_off q -> rel_ok rel = true -> target_ok t = true -> tsources_ok S = true ->
   file_at t below -> spec_ok S (rel ++ below) = true ->
-  In (rel ++ below) (run_dir q true abs rel t (render_sources S)).
+  In (rel ++ below) (run_dir q true abs sp rel t (render_sources S)).
 Proof. exact others_linted. Qed.
 Print Assumptions C14_others_linted.
 
-Theorem C14_flat_only_children : forall q abs rel t S p,
+Theorem C14_flat_only_children : forall q abs sp rel t S p,
   flags_off q -> rel_ok rel = true -> target_ok t = true -> tsources_ok S = true ->
-  In p (run_dir q false abs rel t (render_sources S)) <->
+  In p (run_dir q false abs sp rel t (render_sources S)) <->
   exists n, p = rel ++ [n] /\ In (File n) (children t) /\ spec_ok S p = true.
 Proof. exact flat_only_children. Qed.
 Print Assumptions C14_flat_only_children.
@@ -109,6 +117,34 @@ Theorem C14_glob_prefix : forall name lit stars,
   plain (la lit) -> (stars = "*" \/ stars = "**")%string -> fnm name (lit ++ stars) = starts_with name lit.
 Proof. exact fnm_lit_stars. Qed.
 Print Assumptions C14_glob_prefix.
+
+(* the `?` and `[abc]` rows of the documented pattern table *)
+Theorem C14_glob_question_mark : forall name pre post,
+  plain (la pre) -> plain (la post) ->
+  fnm name (pre ++ "?" ++ post) = true <-> exists c, la name = la pre ++ c :: la post.
+Proof. exact fnm_question. Qed.
+Print Assumptions C14_glob_question_mark.
+
+Theorem C14_glob_character_set : forall name pre chars post,
+  plain (la pre) -> plain (la post) -> simple_set chars ->
+  fnm name (pre ++ "[" ++ sa chars ++ "]" ++ post) = true <-> exists c, In c chars /\ la name = la pre ++ c :: la post.
+Proof. exact fnm_charset. Qed.
+Print Assumptions C14_glob_character_set.
+
+(* brackets: the parser finds the closing "]", an unclosed "[" is literal, a reversed range matches nothing *)
+Theorem C14_glob_bracket_parse : forall body rest,
+  ~ In c_rbr body -> closable (rev body) = true ->
+  parse_st None (c_lbr :: body ++ c_rbr :: rest) = mk_set body :: parse_st None rest.
+Proof. exact parse_bracket. Qed.
+Print Assumptions C14_glob_bracket_parse.
+
+Theorem C14_glob_unclosed_bracket_literal : forall s, ~ In c_rbr s -> parse_st None (c_lbr :: s) = TLit c_lbr :: map tok1 s.
+Proof. exact parse_unclosed. Qed.
+Print Assumptions C14_glob_unclosed_bracket_literal.
+
+Theorem C14_glob_reversed_range_empty : forall lo hi c, nat_of_ascii hi < nat_of_ascii lo -> item_matches c (IRange lo hi) = false.
+Proof. exact reversed_range_empty. Qed.
+Print Assumptions C14_glob_reversed_range_empty.
 
 Theorem C14_glob_literal : forall name pat, plain (la pat) -> fnm name pat = String.eqb name pat.
 Proof. exact fnm_literal. Qed.
@@ -138,18 +174,28 @@ Print Assumptions C14_lint_file_gates.
 
 (* 7. Confinement: ANY quirk vector -- e.g. one describing a tree in which a former defect is back -- is exact on
       every input outside the defect classes (partial: the full statements are 2 and 3). *)
-Theorem C14_dir_run_exact_partial : forall q recursive abs rel t S,
-  outside_defect_classes abs (all_files recursive rel t) S ->
+Theorem C14_dir_run_exact_partial : forall q recursive abs sp rel t S,
+  outside_defect_classes abs (all_files recursive rel t) S -> plain_spelling sp ->
   rel_ok rel = true -> target_ok t = true -> tsources_ok S = true ->
-  run_dir q recursive abs rel t (render_sources S) = spec_dir recursive rel t S.
+  run_dir q recursive abs sp rel t (render_sources S) = spec_dir recursive rel t S.
 Proof. exact run_dir_exact_partial. Qed.
 Print Assumptions C14_dir_run_exact_partial.
 
-Theorem C14_named_files_exact_partial : forall q abs S ps,
-  outside_defect_classes abs ps S -> tsources_ok S = true -> forallb path_ok ps = true ->
-  run_files q abs (render_sources S) ps = spec_files S ps.
+Theorem C14_named_files_exact_partial : forall q abs sp S ps,
+  outside_defect_classes abs ps S -> plain_spelling sp -> tsources_ok S = true -> forallb path_ok ps = true ->
+  run_files q abs sp (render_sources S) ps = spec_files S ps.
 Proof. exact run_files_exact_partial. Qed.
 Print Assumptions C14_named_files_exact_partial.
+
+(* 8. Confinement of the finding that is still listed (q_ignore_cwd_spelling): patterns that look at the file name only
+      (the star-suffix forms PSuffix and PAnySuffix) are applied correctly from any working directory and under any spelling of the target. *)
+Theorem C14_dir_run_exact_name_only_patterns_partial : forall q recursive abs sp rel t S,
+  clear q abs S -> (forall p, In p (all_files recursive rel t) -> name_clear q p) ->
+  forallb name_only (spec_pats S) = true -> forallb comp_ok (spelled sp rel) = true ->
+  rel_ok rel = true -> target_ok t = true -> tsources_ok S = true ->
+  run_dir q recursive abs sp rel t (render_sources S) = spec_dir recursive rel t S.
+Proof. exact run_dir_exact_name_only. Qed.
+Print Assumptions C14_dir_run_exact_name_only_patterns_partial.
 
 (* non-vacuity: an admissible tree, target and source set on which something is excluded, something is
    ignored by every kind of source, and something is linted *)
@@ -164,5 +210,6 @@ Example C14_nonvacuous :
   rel_ok [] = true /\ target_ok ex_tree = true /\ tsources_ok ex_sources = true
   /\ spec_dir true [] ex_tree ex_sources = [["a.py"]; ["src"; "b.py"]]
   /\ spec_dir false [] ex_tree ex_sources = [["a.py"]]
-  /\ run_dir ideal true ["/"; "w"; "proj"] [] ex_tree (render_sources ex_sources) = [["a.py"]; ["src"; "b.py"]].
+  /\ run_dir ideal true ["/"; "w"; "proj"] SAbs [] ex_tree (render_sources ex_sources) = [["a.py"]; ["src"; "b.py"]]
+  /\ run_dir collect_actual false [] (SInside ["src"]) ["src"] (Dir "src" [File "b.py"; Dir "tests" [File "t.py"]]) (render_sources ex_sources) = [["src"; "b.py"]].
 Proof. vm_compute. repeat split; reflexivity. Qed.
